@@ -152,6 +152,7 @@ type Report struct {
 	Missing     []string
 	WallS       float64
 	Lemmas      int
+	Slow        []string
 }
 
 func buildReport(e *Engine, prop, tier string, ts []*fnTrans, trusted []*FuncContract, out string, noReplay, full bool) *Report {
@@ -203,6 +204,9 @@ func buildReport(e *Engine, prop, tier string, ts []*fnTrans, trusted []*FuncCon
 				r.Lemmas++
 			}
 			r.SolverMS += o.TimeMS
+			if o.TimeMS > 1500 {
+				r.Slow = append(r.Slow, fmt.Sprintf("%s %dms %s", o.Name, o.TimeMS, o.Solver))
+			}
 			if o.Result == "unsat" {
 				r.Discharged++
 				r.BySolver[o.Solver]++
@@ -280,6 +284,11 @@ func (r *Report) print(verbose bool) {
 	}
 	for _, f := range r.Faults {
 		fmt.Println("  FAULT", f)
+	}
+	if verbose {
+		for _, s := range r.Slow {
+			fmt.Println("  SLOW", s)
+		}
 	}
 	for _, k := range r.Known {
 		fmt.Println(k)
